@@ -1,4 +1,5 @@
 import Resgate.Model.Encode
+import Resgate.Model.HttpDispatch
 import Resgate.Proofs.Rpc
 import Resgate.Generated.Tables
 
@@ -68,6 +69,45 @@ theorem http_subjects_hygienic (cid path query pref : Bytes) (hcid : cid.all okB
     exact Resgate.subjects_hygienic_of_valid cid hcid hne .get _ [] hv (by intro h; rcases h with h | h <;> cases h)
   · intro hv hp
     exact Resgate.subjects_hygienic_of_valid cid hcid hne .call _ _ hv (fun _ => hp)
+
+/-- **Every HTTP request, unconditionally**: whatever the method (GET, HEAD, POST, a PUT / DELETE /
+    PATCH mapped to a call method by the configuration, or anything else), path, query and API
+    prefix, every service subject the handler's dispatch (`Enc.httpDispatch`, compared with the real
+    `apiHandler` by suite `httppath`) can cause is hygienic; a request whose derived resource id or
+    method is invalid causes no service traffic at all (404 / 405). -/
+theorem http_dispatch_hygienic (cid method path query pref : Bytes) (mapped : Option Bytes)
+    (hcid : cid.all okByte = true) (hne : cid ≠ []) :
+    ∀ s ∈ Enc.httpSubjects cid (Enc.httpDispatch method path query pref mapped), hygienic s = true := by
+  unfold Enc.httpDispatch
+  split
+  · intro s hs; simp [Enc.httpSubjects] at hs
+  · split
+    · dsimp only
+      split
+      · next hv =>
+        exact Resgate.subjects_hygienic_of_valid cid hcid hne .get _ [] hv (by intro h; rcases h with h | h <;> cases h)
+      · intro s hs; simp [Enc.httpSubjects] at hs
+    · split
+      · dsimp only
+        split
+        · next hv =>
+          rw [Bool.and_eq_true] at hv
+          exact Resgate.subjects_hygienic_of_valid cid hcid hne .call _ _ hv.1 (fun _ => hv.2)
+        · intro s hs; simp [Enc.httpSubjects] at hs
+      · split
+        · intro s hs; simp [Enc.httpSubjects] at hs
+        · dsimp only
+          split
+          · next hv =>
+            rw [Bool.and_eq_true] at hv
+            exact Resgate.subjects_hygienic_of_valid cid hcid hne .call _ _ hv.1 (fun _ => hv.2)
+          · intro s hs; simp [Enc.httpSubjects] at hs
+
+/-- Non-vacuity: a mapped PUT of `/api/m/a` calls `put` on `m.a`; of `/api/m/%2A` it is a 404. -/
+example : Enc.httpDispatch [80, 85, 84] [47, 97, 112, 105, 47, 109, 47, 97] [] [47, 97, 112, 105, 47] (some [112, 117, 116])
+    = .call [109, 46, 97] [112, 117, 116] := by decide
+example : Enc.httpDispatch [80, 85, 84] [47, 97, 112, 105, 47, 109, 47, 37, 50, 65] [] [47, 97, 112, 105, 47] (some [112, 117, 116])
+    = .notFound := by decide
 
 /-- A method string without a dot never causes service traffic. -/
 theorem rpc_no_dot {m : Bytes} (h : cDot ∉ m) :
